@@ -3,6 +3,7 @@ import Driver.Bls
 import Driver.Ecdsa
 import Driver.Hash
 import Driver.KeyGen
+import Driver.Dkg
 
 /-! Model driver: one request per line on stdin, one canonical answer per line on stdout.
     First field: case id (echoed), second: operation. Unknown lines are answered `bad-op`. -/
@@ -29,6 +30,7 @@ def dispatch (op : String) (args : List String) : String :=
   | "ecdsa" => Driver.Ecdsa.run args
   | "hash" => Driver.Hash.runHash args
   | "keygen" => Driver.KeyGen.run args
+  | "dkg" => Driver.Dkg.run args
   | "kmac" => Driver.Hash.runKmac args
   | "expect" => " ".intercalate (args.takeWhile (fun a => !a.startsWith "#"))
   | _ => "bad-op"
